@@ -118,7 +118,9 @@ def step (s : State) (line : List String) : State × String :=
   | "delegate" :: a :: _ | "undelegate" :: a :: _ | "redelegate" :: a :: _ | "cancel" :: a :: _ =>
       if facts.fail then (s, "stk-fail " ++ showState s)
       else out (Spons.step s (.staking (idx! a) facts.hooks facts.fin))
-  | "slash" :: _ => out (Spons.step s (.slash facts.fin))
+  | "slash" :: _ =>
+      if facts.fail then (s, "stk-fail " ++ showState s)
+      else out (Spons.step s (.slash facts.fin))
   | ["begin", _] =>
       let s1 := facts.ids.foldl (fun st id => (Spons.step st (.epochEnd (id = "week"))).1) s
       (s1, "ok " ++ showState s1)
